@@ -463,6 +463,9 @@ type xstore struct {
 	failed bool
 	sawGC, sawDelete, sawReopen, sawCascade bool
 	gcHung bool
+	origin string
+	// store-level model (Model/GraphStore.v): operations and observations
+	sops, stoks, lastSweep []string
 }
 
 func (e *xstore) replay() storeReplay {
@@ -515,17 +518,32 @@ func (e *xstore) refreshStored() (vanished []int) {
 }
 
 // sweep queries every node and judges the answers.
+// storeObs: the observation compared with the store-level model after a sweep:
+// the stored set and every Predecessors answer.
+func (e *xstore) storeObs() []string {
+	var ids []int
+	for i, ok := range e.stored {
+		if ok {
+			ids = append(ids, i)
+		}
+	}
+	return append([]string{"b:" + showInts(ids)}, e.lastSweep...)
+}
+
 func (e *xstore) sweep(st content.PredecessorFinder, exister content.ReadOnlyStorage, what string, mops *[]string, toks *[]string) {
+	e.lastSweep = nil
 	for _, n := range e.u.g.Nodes {
 		ds, err := st.Predecessors(ctx, n.Desc)
 		*mops = append(*mops, fmt.Sprintf("Q%d", n.ID))
 		if err != nil {
 			*toks = append(*toks, "err")
+			e.lastSweep = append(e.lastSweep, "err")
 			e.fail("pred-error", fmt.Sprintf("%s: Predecessors(%d): %v", what, n.ID, err))
 			continue
 		}
 		s, ids, unk := e.u.showDescs(ds)
 		*toks = append(*toks, "p:"+s)
+		e.lastSweep = append(e.lastSweep, "p:"+s)
 		want := e.u.expectedPreds(e.stored, n.ID)
 		if sig, msg := judgePreds(ids, unk, want); sig != "" {
 			e.fail(sig, fmt.Sprintf("%s: Predecessors(%d) = [%s], expected %v: %s", what, n.ID, s, want, msg))
@@ -746,6 +764,7 @@ func (e *xstore) do(op string) {
 					e.stored[i] = true
 					e.mops = append(e.mops, fmt.Sprintf("+%d", i), fmt.Sprintf("I%d", i))
 					e.toks = append(e.toks, "ok")
+					e.sops = append(e.sops, fmt.Sprintf("P%d", i))
 				case errors.Is(err, errdef.ErrAlreadyExists) && e.stored[i]:
 					// refused: no change
 				default:
@@ -761,6 +780,7 @@ func (e *xstore) do(op string) {
 		}
 		if err := e.ociSt.Tag(ctx, e.u.g.Nodes[i].Desc, nm); err == nil {
 			e.tags[nm] = i
+			e.sops = append(e.sops, fmt.Sprintf("T%d", i))
 		} else if e.stored[i] {
 			e.fail("tag-error", fmt.Sprintf("Tag(%d,%s): %v", i, nm, err))
 		}
@@ -787,6 +807,7 @@ func (e *xstore) do(op string) {
 		}
 		for _, v := range vanished {
 			e.mops = append(e.mops, fmt.Sprintf("D%d", v), fmt.Sprintf("-%d", v))
+			e.sops = append(e.sops, fmt.Sprintf("X%d", v))
 		}
 	case "gc":
 		if e.ociSt == nil {
@@ -810,6 +831,8 @@ func (e *xstore) do(op string) {
 				run.Count("gc-error-not-judged")
 				e.script[len(e.script)-1] = "gc"
 				e.sweep(e.st, e.st, "after failed gc", &e.mops, &e.toks)
+				e.sops = append(e.sops, "S")
+				e.stoks = append(e.stoks, e.storeObs()...)
 				return
 			}
 		case <-time.After(30 * time.Second):
@@ -827,12 +850,23 @@ func (e *xstore) do(op string) {
 			e.mops = append(e.mops, fmt.Sprintf("-%d", v))
 		}
 		e.mops = append(e.mops, "Z")
+		isTagged := map[int]bool{}
+		for _, i := range e.tags {
+			isTagged[i] = true
+		}
+		var kept []string
 		for _, n := range e.u.g.Nodes {
 			if n.IsManifest() && e.stored[n.ID] {
 				e.mops = append(e.mops, fmt.Sprintf("A%d", n.ID))
 				e.toks = append(e.toks, "ok")
+				if !isTagged[n.ID] {
+					kept = append(kept, strconv.Itoa(n.ID))
+				}
 			}
 		}
+		// store-level model: the untagged manifests that survived are the ones gcIndex kept
+		// (as referrer roots or inside the rebuilt graph)
+		e.sops = append(e.sops, "G"+strings.Join(kept, "."))
 	case "reopen":
 		if e.ociSt == nil {
 			return
@@ -858,6 +892,7 @@ func (e *xstore) do(op string) {
 				e.mops = append(e.mops, fmt.Sprintf("A%d", r))
 				e.toks = append(e.toks, "ok")
 			}
+			e.sops = append(e.sops, "O")
 		case "fs", "tar":
 			var ro *oci.ReadOnlyStore
 			if arg == "fs" {
@@ -887,16 +922,42 @@ func (e *xstore) do(op string) {
 			}
 			e.sweep(ro, ro, "reopened("+arg+")", &mops, &toks)
 			id := run.NewID()
-			run.Case(id, fmt.Sprintf("%d %s %s store-%s-reopen-%s", len(e.u.g.Nodes), e.u.ctString(), strings.Join(mops, ","), e.kind, arg),
+			run.Case(id, fmt.Sprintf("%d %s %s reopen%s-%s", len(e.u.g.Nodes), e.u.ctString(), strings.Join(mops, ","), arg, e.origin),
 				strings.Join(toks, " "))
 			run.Count("reopen-" + arg)
+			// store-level model: the history so far, then a reopen
+			sid := run.NewID()
+			sops := append(append([]string(nil), e.sops...), "O", "S")
+			stoks := append(append([]string(nil), e.stoks...), e.storeObs()...)
+			run.Case(sid, e.storeCaseLine(sops, "reopen"+arg+"-"+e.origin), strings.Join(stoks, " "))
 			return
 		}
 		run.Count("reopen-" + arg)
 	}
 	if !e.gcHung {
 		e.sweep(e.st, e.st, "after "+op, &e.mops, &e.toks)
+		e.sops = append(e.sops, "S")
+		e.stoks = append(e.stoks, e.storeObs()...)
 	}
+}
+
+// storeCaseLine: "S <nuniv> <content-table> <manifest ids> <ops> <origin>" for Model/GraphStore.v.
+func (e *xstore) storeCaseLine(sops []string, origin string) string {
+	var mans []string
+	for _, n := range e.u.g.Nodes {
+		if n.IsManifest() {
+			mans = append(mans, strconv.Itoa(n.ID))
+		}
+	}
+	ms := strings.Join(mans, ",")
+	if ms == "" {
+		ms = "-"
+	}
+	os := strings.Join(sops, ",")
+	if os == "" {
+		os = "-"
+	}
+	return fmt.Sprintf("S %d %s %s %s %s", len(e.u.g.Nodes), e.u.ctString(), ms, os, origin)
 }
 
 // indexRoots reads index.json with the harness's own decoder.
@@ -962,6 +1023,9 @@ func (e *xstore) finish(origin string) {
 	}
 	mops := append(pre, e.mops...)
 	run.Case(e.id, fmt.Sprintf("%d %s %s %s", len(e.u.g.Nodes), e.u.ctString(), strings.Join(mops, ","), origin), strings.Join(e.toks, " "))
+	if !e.gcHung {
+		run.Case(run.NewID(), e.storeCaseLine(e.sops, origin), strings.Join(e.stoks, " "))
+	}
 	run.Count("store-" + e.kind)
 	canon := e.kind + " " + e.u.ctString() + " " + strings.Join(e.script, " ")
 	if e.sawDelete || e.sawGC || e.sawReopen || strings.Contains(canon, "cpush") {
@@ -992,7 +1056,7 @@ func genStore(r *common.Rand, kind string, origin string) {
 		o.MaxNodes = 14
 	}
 	g := dag.Random(r, o)
-	e := &xstore{u: newUniverse(g), kind: kind, autoGC: r.Bool(), id: run.NewID()}
+	e := &xstore{u: newUniverse(g), kind: kind, autoGC: r.Bool(), id: run.NewID(), origin: origin}
 	if err := e.open(); err != nil {
 		panic(err)
 	}
@@ -1117,7 +1181,7 @@ func genStore(r *common.Rand, kind string, origin string) {
 
 func replayStore(rep storeReplay) {
 	g := dag.Decode(rep.Graph)
-	e := &xstore{u: newUniverse(g), kind: rep.Store, autoGC: rep.AutoGC, id: run.NewID()}
+	e := &xstore{u: newUniverse(g), kind: rep.Store, autoGC: rep.AutoGC, id: run.NewID(), origin: "store-replay"}
 	if err := e.open(); err != nil {
 		panic(err)
 	}
@@ -1251,7 +1315,7 @@ func permCases(r *common.Rand, origin string) {
 			runRaw(g, append(ops, sweep...), origin)
 			run.Count("perm-raw")
 			if len(perm) <= 5 {
-				e := &xstore{u: newUniverse(g), kind: "memory", id: run.NewID()}
+				e := &xstore{u: newUniverse(g), kind: "memory", id: run.NewID(), origin: origin}
 				if err := e.open(); err != nil {
 					panic(err)
 				}
